@@ -23,6 +23,7 @@ MUTANTS = [
      "\tfor identifier := range d.analogNoteTracker {\n\t\td.AnalogNoteOff(identifier, &input.InputEvent{})\n\t}", "", ["C01"]),
     ("c01-skip-key-cleanup-managed", EVS,
      "\tfor evcode := range d.noteTracker {", "\tfor evcode := range d.noteTracker {\n\t\tif d.config.CollisionMode == config.CollisionRetrigger {\n\t\t\tbreak\n\t\t}", ["C01"]),
+    ("c01-analog-stuck-on-mapping-switch", EVS, "\tif !analogOk || analog.MappingType != config.AnalogKeySim {", "\tif false {", ["C01"]),
     ("c02-tracker-stores-base-channel", DEV,
      "d.noteTracker[ev.Event.Code] = [2]byte{note, channel}\n\td.activeNotesCounter[channel][note]++",
      "d.noteTracker[ev.Event.Code] = [2]byte{note, d.channel}\n\td.activeNotesCounter[channel][note]++", ["C02", "C01", "C03"]),
